@@ -32,6 +32,9 @@ fixed = [
  ("C08", "23b1b66", "structure_function_vk(0, r0, L0) and stf_vonKarman(0, L0) returned NaN instead of 0"),
 ]
 open_ = [
+ {"property": "C05", "mechanism": "stability:unstable_or_inexact:pixel_scale_below_1e-5_L0",
+  "what": "for pixel scales below ~1e-5 L0 the von Karman screen still constructs but the row recursion is marginally unstable / its constant gain exceeds 1 (rho - 1 = 1e-8 at 3e-6 L0, 5e-5 at 1e-7 L0, 0.125 at 1e-9 L0): the stencil covariance is conditioned beyond double precision",
+  "why_not_repaired": "needs extended precision or a refusal criterion for such samplings (a behaviour change); after the float64 repair the stable range already extends from 1e-4 L0 down to 1e-5 L0"},
  {"property": "C20", "mechanism": "global_state_changed:optimal_grouping:numpy_global_rng",
   "what": "optimal_grouping draws its random restarts from, and so advances, NumPy's global random generator (hidden global state read and written by a library call)",
   "why_not_repaired": "repair needs an API change (a seed / Generator parameter); C18 checks that its guarantees hold for arbitrary global states"},
